@@ -81,8 +81,21 @@ static void session_mode(int alg, int tier)
             api_inc_free[alg](&st); hist++;
         }
     }
+    /* a long session on one object: 70,000 packets from a nonce whose low bytes are about to carry twice (00 FF FE F0): the stored nonce is checked after every start,
+     * the packet itself every 257th time and at the end */
+    { api_inc_state st; uint8_t cur[16]; chain_nonce(cur, 0, 0x41); cur[12] = 0x00; cur[13] = 0xff; cur[14] = 0xfe; cur[15] = 0xf0; api_inc_init[alg](&st, cur, K);
+      for (long i = 0; i < 70000; i++) {
+        uint8_t exp[48], out[32], tag[16]; int chk = (i % 257) == 0 || i == 69999;
+        if (chk) ref_aead_encrypt(alg, K, cur, ADB, 3, MSG, 5, exp);
+        api_inc_start[alg](&st, ADB, 3); ref_nonce_inc(cur);
+        if (memcmp(api_inc_nonce(alg, &st), cur, 16)) { hx_fail(kb, "long session: stored nonce after start #%ld is not N+%ld", i + 1, i + 1); break; }
+        api_inc_enc[alg](&st, MSG, out, 5); api_inc_encfin[alg](&st, tag);
+        if (chk && (memcmp(out, exp, 5) || memcmp(tag, exp + 5, 16))) { hx_fail(kb, "long session: packet %ld differs from the one-shot result under N+%ld", i, i); break; }
+        hx_stat("transitions", 1);
+      }
+      api_inc_free[alg](&st); hist++; }
     hx_stat("histories", hist);
-    hx_sample("incremental %s: starting nonces with carry chains 0..16 x all packet histories of depth %d over {encrypt, decrypt, forged decrypt}", api_alg_name[alg], depth);
+    hx_sample("incremental %s: starting nonces with carry chains 0..16 x all packet histories of depth %d over {encrypt, decrypt, forged decrypt}; one session of 70,000 packets", api_alg_name[alg], depth);
 }
 
 static const uint8_t *REFKEY = K;   /* the key the session object currently holds */
@@ -140,6 +153,17 @@ static void cpp_mode(int family, int alg, int tier)
         }
     }
     /* set_nonce with every length 0..20 (left pad with zeros / truncate), NULL with 0; set_counter at byte boundaries */
+    /* a long session on one C++ object (not the masked classes: their cost is dominated by the random source): 70,000 alternating encryptions and decryptions */
+    if (family != 1) { void *h = cpps_new(family, alg); uint8_t cur[16]; chain_nonce(cur, 0, 0x41); cur[12] = 0x00; cur[13] = 0xff; cur[14] = 0xfe; cur[15] = 0xf0; REFKEY = K;
+      cpps_set_key(h, K, klen); cpps_set_nonce(h, cur, 16); long n = family == 3 ? 3000 : 70000;
+      for (long i = 0; i < n; i++) {
+        uint8_t exp[48], out[48]; int chk = (i % 257) == 0 || i == n - 1 || i < 2, r;
+        if (chk || (i & 1)) refenc(family, alg, cur, ADB, 3, MSG, 5, exp);
+        if (i & 1) { r = cpps_decrypt(h, out, exp, 21, ADB, 3); if (r != 5 || memcmp(out, MSG, 5)) { hx_fail(kb, "long session: operation %ld (decrypt of the one-shot packet under N+%ld) returned %d", i, i, r); break; } }
+        else { r = cpps_encrypt(h, out, MSG, 5, ADB, 3); if (r != 21 || (chk && memcmp(out, exp, 21))) { hx_fail(kb, "long session: operation %ld (encrypt) is not the one-shot result under N+%ld", i, i); break; } }
+        ref_nonce_inc(cur); hx_stat("transitions", 1);
+      }
+      cpps_delete(h); }
     static const int nlens[] = {0, 1, 2, 3, 4, 5, 6, 7, 8, 9, 10, 11, 12, 13, 14, 15, 16, 17, 18, 19, 20, 31, 32, 33, 255, 256, 257, 271, 272, 512, 1024, 4099, 65536, 65537};
     for (unsigned li = 0; li < sizeof nlens / sizeof nlens[0]; li++) { int len = nlens[li];
         void *h = cpps_new(family, alg); static uint8_t src[65600]; uint8_t want[16], exp[64], out[64];
